@@ -11,3 +11,26 @@ def key_task(key: str, other: str = "") -> str:
 
 def noop() -> None:
     return None
+
+
+class Retriable(Exception):
+    pass
+
+
+class Other(Exception):
+    pass
+
+
+SCRIPT: list = []      # per-execution script: 'o' return, 'r' raise Retriable, 'k' raise Other
+CALLS = [0]
+
+
+def scripted(x: int) -> int:
+    i = CALLS[0]
+    CALLS[0] += 1
+    step = SCRIPT[i] if i < len(SCRIPT) else "o"
+    if step == "r":
+        raise Retriable("again", i)
+    if step == "k":
+        raise Other("boom", i)
+    return x * 10 + i
